@@ -249,8 +249,6 @@ class PerishableInventory(Entity):
         return []
 
     def _check_reorder(self) -> list[Event]:
-        from happysimulator.core.temporal import Instant
-
         if self.stock <= self.reorder_point and not self._order_pending:
             self._order_pending = True
             self._reorders += 1
@@ -264,7 +262,7 @@ class PerishableInventory(Entity):
             )
             return [
                 Event(
-                    time=Instant.from_seconds(now_s + self.lead_time),
+                    time=self.now + self.lead_time,
                     event_type=_REPLENISH,
                     target=self,
                     context={"quantity": self.order_quantity},
